@@ -29,7 +29,8 @@ Inductive item :=
 
 Record prog := mkProg {
   pr_items : list item; pr_org : option nexpr; pr_end : option nexpr;
-  pr_name : option text; pr_author : option text }.
+  pr_name : option text; pr_author : option text;
+  pr_end_labels : list N }.             (* labels written on the END line: the address just past the code *)
 
 (* ---------- wire format (prefix encoding) ---------- *)
 Definition bop_of (n : Z) : bop :=
@@ -131,7 +132,7 @@ Definition rd_opttext (l : list Z) : option (option text * list Z) :=
   | [] => None
   end.
 
-(* [nitems; items...; org; end; name; author] *)
+(* [nitems; items...; org; end; name; author; (nendlabels; ids...)] *)
 Definition rd_prog (l : list Z) : option (prog * list Z) :=
   let f := S (length l) in
   match l with
@@ -145,7 +146,14 @@ Definition rd_prog (l : list Z) : option (prog * list Z) :=
           match rd_opttext t3 with
           | Some (nm, t4) =>
             match rd_opttext t4 with
-            | Some (au, t5) => Some (mkProg its org en nm au, t5)
+            | Some (au, t5) =>
+              (* optional tail: the labels of the END line *)
+              match t5 with
+              | [] => Some (mkProg its org en nm au [], t5)
+              | _ => match rd_ids t5 with
+                     | Some (els, t6) => Some (mkProg its org en nm au els, t6)
+                     | None => None end
+              end
             | None => None end
           | None => None end
         | None => None end
